@@ -1386,6 +1386,7 @@ def f_int(it, x=None, base=None):
         # converted exactly (str.to_int), anything else is handled by an uninterpreted acceptance predicate.
         digits = z3.InRe(x.t, z3.Plus(z3.Range("0", "9")))
         if it.branch(SBool(digits)):
+            it.ex.assume(z3.StrToInt(x.t) >= 0)  # valid lemma: the value of a non-empty digit string is >= 0
             return SInt(z3.StrToInt(x.t))
         ok = uf("int_parsable_nondigit", _S, z3.BoolSort())(x.t)
         it.ex.assume(z3.Implies(ok, z3.Length(x.t) > 0))  # int("") / int(b"") always raises ValueError
